@@ -42,7 +42,7 @@ Definition decode_delta (rest : list Z) : option (Z * Z * list Z) :=
   end.
 
 Definition ynext (c : ycursor) (dur change : Z) (r : list Z) : ycursor :=
-  mkyc r (yc_off c + 4) (u32 (yc_start_ms c + dur)) (yc_start_ddeg c + change).
+  mkyc r (4 + yc_off c) (u32 (yc_start_ms c + dur)) (yc_start_ddeg c + change).
 
 Inductive ylanding :=
 | YOn (c : ycursor) (dur change : Z) (u : Q)
